@@ -159,6 +159,43 @@ def run(args):
                             break
                 if not n_fresh:
                     rep.ok()
+            # (b'') the stopping test is a function of the update tangent only: resolving the scalar / matrix locals it
+            # reads through their definitions inside the loop, and stopping at tangent-typed values (differences of group
+            # elements, which are invariant under translation of all points), it never reaches the iterate itself
+            if outer:
+                body = outer[0].get("body")
+                defs = {}
+                for x in A.walk(body):
+                    if x.get("k") == "VarDecl" and x.get("init") is not None:
+                        defs.setdefault(x["decl"], []).append(x["init"])
+                    if x.get("k") in ("BinaryOperator", "CXXOperatorCallExpr") and x.get("op") in ("=", "+=", "-=", "*=") and x.get("ch"):
+                        ch = x["ch"]
+                        lhs = A.strip(ch[0] if x.get("k") == "BinaryOperator" else ch[1])
+                        if isinstance(lhs, dict) and lhs.get("k") == "DeclRefExpr":
+                            defs.setdefault(lhs["decl"], []).append(ch[-1])
+                tys = {x["decl"]: F.ty(x) for x in A.walk(f.get("body")) if x.get("k") == "VarDecl"}
+                n_stop = 0
+                for x in A.walk(body):
+                    if x.get("k") == "IfStmt" and any(y.get("k") in ("BreakStmt", "ReturnStmt") for y in A.walk(x.get("then"))):
+                        n_stop += 1
+                        seen, todo, hit = set(), [x.get("cond")], None
+                        while todo and hit is None:
+                            e = todo.pop()
+                            for y in A.walk(e):
+                                if y.get("k") == "DeclRefExpr" and y.get("dk") == "Var":
+                                    d_ = y.get("decl")
+                                    if d_ in it_decls:
+                                        hit = y
+                                        break
+                                    if d_ in seen or "Tangent" in tys.get(d_, ""):
+                                        continue
+                                    seen.add(d_)
+                                    todo.extend(defs.get(d_, []))
+                        rep.obligation(hit is None, lambda x=x, hit=hit: C.Finding(
+                            "C16", "R-ITER.stop", "%s@stop" % site,
+                            "the stopping test at line %s reads the iterate `%s` itself (line %s), not only the update tangent: the number of sweeps then depends on where the points lie, so the result does not commute with translating all points" % (x.get("ln"), hit.get("name") or "?", hit.get("ln")),
+                            f["file"], x.get("ln")))
+                rep.obligation(n_stop >= 1, lambda: C.Finding("C16", "R-ITER.stop", site, "no stopping test found inside the max_iterations loop", f["file"], f["line"]))
             # (d) elements are produced only through group operations
             for x in A.walk(f.get("body")):
                 if x.get("k") in ("CXXConstructExpr", "CXXTemporaryObjectExpr") and x.get("inrepo") and str(x.get("cls", "")).startswith("manif::"):
@@ -174,6 +211,7 @@ def run(args):
         "R-MPT.singleton: a one-element container is returned (its element) before any iteration",
         "R-LOOP: exactly one outer loop `for (i = 0; i < max_iterations; ++i)`; every loop is a counted loop whose counter and bound are not modified in its body; inner loops advance an iterator to end(); no while/do loops => at most max_iterations*|points| group operations",
         "R-ITER.fresh: no value derived from the iterate before the max_iterations loop and never updated inside it is read inside it (a hoisted linearisation point goes stale when the iterate changes)",
+        "R-ITER.stop: every test that leaves the max_iterations loop depends on the iterate only through tangent-typed values (group differences): resolving the non-tangent locals it reads through their definitions in the loop never reaches the iterate variable itself (a coefficient-dependent threshold is not translation invariant)",
         "R-CONSTRUCT: elements are produced only through group operations (+=, lplus, rplus, +), never from raw coefficients",
     ]
     rep.observations.append("average() ignores its eps parameter and uses Constants<Scalar>::eps (clang-tidy misc-unused-parameters cross-reference); not a clause of the property")
